@@ -33,3 +33,21 @@ Theorem C03_inert_all_schedules : forall g p sched evs w i u pre l,
   n_flat (nd g i) = false /\ n_cloned (nd g i) = false.
 Proof. intros g p sched evs w i u pre l H1 H2. pose proof (all_starts_ok g p sched evs w i u pre l H1 H2) as H. unfold startable in H. tauto. Qed.
 Print Assumptions C03_inert_all_schedules.
+
+(* ---- over the traversal model, for EVERY graph, initial pool population and schedule (Proofs/TraverseUid.v) ---- *)
+From I2N Require Import Proofs.TraverseUid.
+
+(* a test that saves no state is started only while fewer results than its retry budget (max_tries, at least 1) exist
+   on its class of bridged copies: its identifier - the number of results so far - is below the budget ... *)
+Theorem C03_stateless_start_below_budget : forall g p sched evs w i u l,
+  In evs (snd (run_schedule g (init_state g p) sched)) -> In (EStart w i u false l) evs ->
+  nonobjc g i -> stateful (nd g i) = false -> (u < budget g i)%nat.
+Proof. exact stateless_start_below_budget. Qed.
+Print Assumptions C03_stateless_start_below_budget.
+
+(* ... hence it is executed on a node copy at most max_tries (at least 1) times *)
+Theorem C03_stateless_executions_within_budget : forall g p sched i,
+  nonobjc g i -> stateful (nd g i) = false ->
+  (length (node_uids i (snd (run_schedule g (init_state g p) sched))) <= budget g i)%nat.
+Proof. exact stateless_executions_within_budget. Qed.
+Print Assumptions C03_stateless_executions_within_budget.
